@@ -843,6 +843,17 @@ impl Block {
                                 "double-spend detected in block {} : {} in block.create()",
                                 block.id, input
                             );
+                            // no block is produced: hand the caller's transactions back
+                            for tx in block.transactions.drain(..) {
+                                if !matches!(
+                                    tx.transaction_type,
+                                    TransactionType::Fee
+                                        | TransactionType::ATR
+                                        | TransactionType::GoldenTicket
+                                ) {
+                                    transactions.insert(tx.signature, tx);
+                                }
+                            }
                             return Err(Error::new(
                                 ErrorKind::InvalidData,
                                 "double-spend detected",
